@@ -55,7 +55,7 @@ ASSUMPTIONS = [
 ]
 
 OPTS = F.ALL_OPTS
-KINDS = ["owner", "parent", "child", "grandchild", "tag"]
+KINDS = ["owner", "parent", "child", "grandchild", "tag", "note"]
 RELS = {
     # name: (source kind, target kind, uselist, reverse name, foreign key: (table holding it, column) or None for m2m)
     "children": ("parent", "child", True, "parent"),
@@ -65,6 +65,7 @@ RELS = {
     "tags": ("parent", "tag", True, None),
     "owner": ("parent", "owner", False, "parents"),
     "parents": ("owner", "parent", True, "owner"),
+    "notes": ("parent", "note", True, None),  # unidirectional one-to-many: the child has no relationship back
 }
 REL_NAMES = list(RELS)
 BY_SRC = {k: [r for r, d in RELS.items() if d[0] == k] for k in KINDS}
@@ -257,7 +258,9 @@ class Model:
                             seen_by_flush = True  # its own reverse attribute changed: it is dirty and examined by the flush
                         else:
                             by = self.removed_by.get((k, r))
-                            seen_by_flush = seen_by_flush or (by is not None and self.state.get(by) in ("S", "P"))
+                            # one-to-many without reverse side: also the *deleted* ex-parent's flush examines what was removed from it
+                            okst = ("S", "P", "D") if r == "notes" else ("S", "P")
+                            seen_by_flush = seen_by_flush or (by is not None and self.state.get(by) in okst)
                 if seen_by_flush:
                     work.append(k)
         while work:
@@ -279,12 +282,12 @@ class Model:
         for k in doomed:
             for r in BY_SRC[k[0]]:
                 srck, dstk, uselist, rev = RELS[r]
-                if uselist and rev is not None and not self.has(r, "delete"):
+                if uselist and (rev is not None or r == "notes") and not self.has(r, "delete"):
                     for m in self.members(k, r):
                         # members attached since the last flush are not de-associated by the delete (unit of work looks at
                         # unchanged / removed members only): their foreign key is not judged
                         if m not in doomed and self.insession(m) and m in (self.committed.get((k, r)) or []):
-                            nulled.add((m, rev))
+                            nulled.add((m, rev if rev is not None else r))
         for k in self.state:
             if self.state[k] == "P":
                 self.state[k] = "S"
@@ -304,7 +307,7 @@ class _Run:
         self.ctx = ctx
         self.case = case
         cfg = case["cfg"]
-        self.cascades = {r: [OPTS[i] for i in range(6) if cfg[r] >> i & 1] for r in ("children", "grandchildren", "tags", "owner")}
+        self.cascades = {r: [OPTS[i] for i in range(6) if cfg.get(r, 3) >> i & 1] for r in ("children", "grandchildren", "tags", "owner", "notes")}
         with warnings.catch_warnings():
             warnings.simplefilter("ignore")
             self.fam = F.family(**self.cascades)
@@ -356,13 +359,16 @@ class _Run:
                     p["owner_id"] = remap[p["owner_id"]]
             owners = [dict(id=i + 1) for i in range(len(used))]
         tags = [dict(id=i + 1) for i in range(n_t)]
+        orphan_n = "delete-orphan" in self.cascades["notes"]
+        notes = [dict(id=i + 1, parent_id=((x or 0) % n_p + 1 if (x is not None or orphan_n) else None)) for i, x in enumerate(init.get("notes", []))]
+        F.raw_insert(self.rc, "note", notes)
         F.raw_insert(self.rc, "owner", owners)
         F.raw_insert(self.rc, "parent", parents)
         F.raw_insert(self.rc, "child", children)
         F.raw_insert(self.rc, "grandchild", grands)
         F.raw_insert(self.rc, "tag", tags)
         F.raw_insert(self.rc, "parent_tag", [dict(parent_id=a, tag_id=b) for a, b in links])
-        self.next_id = {"owner": len(owners) + 1, "parent": n_p + 1, "child": n_c + 1, "grandchild": len(grands) + 1, "tag": n_t + 1}
+        self.next_id = {"owner": len(owners) + 1, "parent": n_p + 1, "child": n_c + 1, "grandchild": len(grands) + 1, "tag": n_t + 1, "note": len(notes) + 1}
         self.sess = Session(self.eng, autoflush=False, expire_on_commit=True)
         self.objs = {}  # key -> live object the harness works with
         self.reload()
@@ -431,7 +437,7 @@ class _Run:
 
     def single_parent_conflict(self, r, src, dst):
         """would a single_parent validator raise?  (model: dst currently has another parent through r)"""
-        if r in ("tags", "owner") and "delete-orphan" in self.cascades[r]:
+        if (r in ("tags", "owner") and "delete-orphan" in self.cascades[r]) or r == "notes":  # a note row has one foreign key: one holder at a time
             for k in self.m.state:
                 if k[0] == "parent" and k != src and k in self.objs and dst in self.m.members(k, r):
                     return True
@@ -439,7 +445,7 @@ class _Run:
 
     # ---------------------------------------------------------------- operations
     def op_new(self, kind_i):
-        kind = KINDS[kind_i % 5]
+        kind = KINDS[kind_i % len(KINDS)]
         key = (kind, self.next_id[kind])
         self.next_id[kind] += 1
         self.objs[key] = self.fam.classes[kind](id=key[1])
@@ -461,7 +467,7 @@ class _Run:
 
     def op_link(self, ri, si, di, pinned):
         m = self.m
-        r = REL_NAMES[ri % 7]
+        r = REL_NAMES[ri % len(REL_NAMES)]
         srck, dstk, uselist, rev = RELS[r]
         src = self.pick(si, lambda k: k[0] == srck and m.state[k] != "D")
         dst = self.pick(di, lambda k: k[0] == dstk and m.state[k] != "D")
@@ -472,7 +478,7 @@ class _Run:
     def op_linknew(self, ri, oi, pinned):
         """attach the most recently created object through relationship ri (it is the target of a list side or the source of a scalar side)"""
         m = self.m
-        r = REL_NAMES[ri % 7]
+        r = REL_NAMES[ri % len(REL_NAMES)]
         srck, dstk, uselist, rev = RELS[r]
         new = self.order[-1]
         if m.state.get(new) != "T":
@@ -501,7 +507,7 @@ class _Run:
     def op_bounce(self, li, pi, ii, side, same):
         """detach an object and attach it again (to the same or another parent) before the flush"""
         m = self.m
-        L = ["children", "grandchildren", "tags", "parents", "children"][li % 5]
+        L = ["children", "grandchildren", "tags", "parents", "children", "notes"][li % 6]
         srck, dstk, _u, rev = RELS[L]
         par = self.pick(pi, lambda k: k[0] == srck and m.state[k] != "D" and any(m.state[x] != "D" for x in m.members(k, L)))
         if par is None:
@@ -566,7 +572,7 @@ class _Run:
                             f"{moved} was pending and attached to {oldp} through {via} (delete-orphan); moving it to another parent in one step "
                             f"({src}.{r} {'+=' if uselist else '='} {dst}) removed it from the session although it is associated with its new parent; "
                             f"it will not be inserted (cascades {self.cascades})", observed="not in session", expected="pending")
-        self.classes.add("attach-" + ("owning-side" if r in ("children", "grandchildren", "tags", "owner") else "backref-side"))
+        self.classes.add("attach-" + ("owning-side" if r in ("children", "grandchildren", "tags", "owner", "notes") else "backref-side"))
         return f"link {src}.{r} += {dst}"
 
     def do_unlink(self, r, src, item):
@@ -585,7 +591,7 @@ class _Run:
 
     def op_unlink(self, ri, si, ki):
         m = self.m
-        r = REL_NAMES[ri % 7]
+        r = REL_NAMES[ri % len(REL_NAMES)]
         srck = RELS[r][0]
         src = self.pick(si, lambda k: k[0] == srck and m.state[k] != "D" and m.members(k, r))
         if src is None:
@@ -598,7 +604,24 @@ class _Run:
         self.classes.add("detach")
         return f"unlink {src}.{r} -= {item}"
 
-    def op_delete(self, idx):
+    def op_rmdel(self, pi, ii):
+        """remove a member from a parent's unidirectional collection (not re-associated) and delete that parent, in one flush"""
+        m = self.m
+        par = self.pick(pi, lambda k: k[0] == "parent" and m.state[k] == "S" and any(m.state[x] == "S" for x in m.members(k, "notes")))
+        if par is None:
+            return None
+        mem = [x for x in m.members(par, "notes") if m.state[x] == "S"]
+        item = mem[ii % len(mem)]
+        self.do_unlink("notes", par, item)
+        self.observe(f"unlink {par}.notes -= {item} (before deleting the parent)")
+        what = self.op_delete(0, forced=par)
+        if what is not None:
+            self.classes.add("unidirectional-remove-then-delete-parent")
+            if m.has("notes", "delete-orphan"):
+                self.classes.add("unidirectional-orphan-and-parent-delete-in-one-flush")
+        return what or f"unlink {par}.notes -= {item}"
+
+    def op_delete(self, idx, forced=None):
         m = self.m
 
         def ok(k):
@@ -607,6 +630,8 @@ class _Run:
             for c in [k] + m.closure(k, "delete"):
                 for r in BY_SRC[c[0]]:
                     cur, old = m.rel[(c, r)], m.committed.get((c, r), [] if RELS[r][2] else None)
+                    if c == k and r == "notes" and all(x in old for x in cur):
+                        continue  # members were only removed from the unidirectional collection: orphan + parent delete in one flush
                     if cur != old:
                         return False
             # nor may anything in the closure have been attached somewhere else since the last flush (e.g. a tag just appended to Parent.tags)
@@ -620,7 +645,7 @@ class _Run:
                     return False
             return True
 
-        k = self.pick(idx, ok)
+        k = forced if forced is not None and ok(forced) else (None if forced is not None else self.pick(idx, ok))
         if k is None:
             return None
         self.sess.delete(self.objs[k])
@@ -682,6 +707,24 @@ class _Run:
                     self.stop = True
                     self.classes.add("ended-early-orphan-outside-session")
                     return
+                if st_ == "S" and clo:
+                    # the orphan itself is always found (it is dirty), but its delete cascade is applied only by the flush of a surviving
+                    # in-session ex-parent that still has it in its committed collection (OneToManyDP.presort_saves).  If the ex-parent is
+                    # outside the session, marked deleted itself, or got and lost the object within this epoch, the cascade is not
+                    # applied and the orphan's children are left behind: unspecified corner (reported as an observation), not judged
+                    applied = False
+                    for r, d in RELS.items():
+                        if d[1] == k[0] and m.has(r, "delete-orphan") and m.hasparent.get((k, r), True) is False:
+                            for x, sx in m.state.items():
+                                if x[0] == d[0] and sx in ("S", "P"):
+                                    old = m.committed.get((x, r))
+                                    old = (list(old) if d[2] else [old]) if old is not None else []
+                                    if k in old and k not in m.members(x, r):
+                                        applied = True
+                    if not applied:
+                        self.stop = True
+                        self.classes.add("ended-early-orphan-cascade-unspecified")
+                        return
                 if st_ == "S":
                     pending_in_orphan_cascade += [c for c in clo if m.state[c] == "P"]
         if pending_in_orphan_cascade and not pinned:
@@ -691,6 +734,7 @@ class _Run:
         before = dict(m.state)
         insess_before = {k for k, s in before.items() if s in IN_SESSION}
         rel_before = {kr: (list(v) if isinstance(v, list) else v) for kr, v in m.rel.items()}
+        self.committed_before = dict(m.committed)
         with warnings.catch_warnings():
             warnings.simplefilter("ignore")
             try:
@@ -718,7 +762,7 @@ class _Run:
         snap = F.raw_snapshot(self.rc)
         rows = {"owner": {r[0]: {} for r in snap["owner"]}, "parent": {r[0]: {"owner": r[4]} for r in snap["parent"]},
                 "child": {r[0]: {"parent": r[1]} for r in snap["child"]}, "grandchild": {r[0]: {"child": r[1]} for r in snap["grandchild"]},
-                "tag": {r[0]: {} for r in snap["tag"]}}
+                "tag": {r[0]: {} for r in snap["tag"]}, "note": {r[0]: {"parent": r[1]} for r in snap["note"]}}
         links = {tuple(r) for r in snap["parent_tag"]}
         # 1. exactly the expected rows
         for kind in KINDS:
@@ -751,6 +795,27 @@ class _Run:
                     raise Violation(f"C39/db/{kind}.{r}_id", f"{where}: {k[0]}#{k[1]}.{r}_id is {got!r}, expected {want!r} (in-memory {r} = {tgt}); cascades {self.cascades}",
                                     observed=got, expected=want)
         for k, s in m.state.items():
+            if k[0] != "note" or s != "S" or k not in insess_before:
+                continue
+            holders = [p for p in before if p[0] == "parent" and k in rel_before[(p, "notes")]]
+            if any(p not in insess_before for p in holders):
+                continue  # held by an object outside the session: not judged
+            if holders:
+                p = holders[0]
+                if p in doomed:
+                    if (k, "notes") not in nulled:
+                        continue
+                    want = None
+                else:
+                    want = p[1]
+            elif any(k in (m_old or []) and x in insess_before for (x, r_), m_old in self.committed_before.items() if r_ == "notes"):
+                want = None  # removed from its parent's collection in this flush and not deleted (no delete-orphan)
+            else:
+                continue
+            got = rows["note"][k[1]]["parent"]
+            if got != want:
+                raise Violation("C39/db/note.parent_id", f"{where}: note#{k[1]}.parent_id is {got!r}, expected {want!r} (held by {holders}); cascades {self.cascades}", observed=got, expected=want)
+        for k, s in m.state.items():
             if k[0] == "parent" and s == "S" and k in insess_before:
                 tl = [t for t in rel_before[(k, "tags")]]
                 if any(t not in insess_before for t in tl):
@@ -762,12 +827,13 @@ class _Run:
                     raise Violation("C39/db/parent_tag", f"{where}: association rows of {k} are {sorted(got)}, expected {sorted(want)}", observed=sorted(got), expected=sorted(want))
         # 3. raw orphan invariant for delete + delete-orphan relationships (rows that existed before this flush: a pending orphan that
         #    the application add()s again explicitly is inserted by design, see "legacy_is_orphan" notes in the 0.8 migration guide)
-        for r, child_t, fk, parent_t in (("children", "child", "parent_id", "parent"), ("grandchildren", "grandchild", "child_id", "child")):
+        for r, child_t, fk, parent_t in (("children", "child", "parent_id", "parent"), ("grandchildren", "grandchild", "child_id", "child"), ("notes", "note", "parent_id", "parent")):
             if {"delete", "delete-orphan"} <= set(self.cascades[r]):
                 bad = self.rc.execute(f"SELECT c.id FROM {child_t} c LEFT JOIN {parent_t} p ON c.{fk} = p.id WHERE p.id IS NULL").fetchall()
                 rev = RELS[r][3]
                 bad = [b[0] for b in bad if (child_t, b[0]) in before and before[(child_t, b[0])] in ("S", "D") and self._ever_parented((child_t, b[0]), r, rel_before)
-                       and (rel_before.get(((child_t, b[0]), rev)) is None or rel_before[((child_t, b[0]), rev)] in insess_before)]
+                       and (rev is None or rel_before.get(((child_t, b[0]), rev)) is None or rel_before[((child_t, b[0]), rev)] in insess_before)
+                       and (rev is not None or all(x in insess_before for (x, r_), mem in rel_before.items() if r_ == r and (child_t, b[0]) in mem))]
                 if bad:
                     raise Violation(f"C39/invariant/{r}/orphan-row", f"{where}: {child_t} rows {bad} have no parent row although {r} is delete + delete-orphan", observed=bad, expected=[])
         self.classes.add("flush")
@@ -777,6 +843,7 @@ class _Run:
         for q in ("SELECT count(*) FROM child c WHERE c.parent_id IS NOT NULL AND c.parent_id NOT IN (SELECT id FROM parent)",
                   "SELECT count(*) FROM grandchild g WHERE g.child_id IS NOT NULL AND g.child_id NOT IN (SELECT id FROM child)",
                   "SELECT count(*) FROM parent p WHERE p.owner_id IS NOT NULL AND p.owner_id NOT IN (SELECT id FROM owner)",
+                  "SELECT count(*) FROM note n WHERE n.parent_id IS NOT NULL AND n.parent_id NOT IN (SELECT id FROM parent)",
                   "SELECT count(*) FROM parent_tag l WHERE l.parent_id NOT IN (SELECT id FROM parent) OR l.tag_id NOT IN (SELECT id FROM tag)"):
             dangling += self.rc.execute(q).fetchone()[0]
         if dangling:
@@ -787,6 +854,8 @@ class _Run:
 
     def _ever_parented(self, k, r, rel_before):
         rev = RELS[r][3]
+        if rev is None:
+            return (k, r) in self.m.hasparent or any(r_ == r and k in (mem or []) for (x, r_), mem in list(self.committed_before.items()) + list(rel_before.items()))
         return self.m.committed.get((k, rev)) is not None or rel_before.get((k, rev)) is not None or (k, r) in self.m.hasparent
 
 
@@ -814,6 +883,8 @@ def check(case, ctx):
                         what = run.op_move(op[1], op[2], op[3], op[4], pinned)
                     elif k == "bounce":
                         what = run.op_bounce(op[1], op[2], op[3], op[4], op[5])
+                    elif k == "rmdel":
+                        what = run.op_rmdel(op[1], op[2])
                     elif k == "delete":
                         what = run.op_delete(op[1])
                     elif k == "expunge":
@@ -852,9 +923,9 @@ _subset = st.one_of(
 def _cases(draw):
     if draw(st.booleans()):
         s = draw(_subset)
-        cfg = {"children": s, "grandchildren": s, "tags": s, "owner": s}
+        cfg = {"children": s, "grandchildren": s, "tags": s, "owner": s, "notes": s}
     else:
-        cfg = {r: draw(_subset) for r in ("children", "grandchildren", "tags", "owner")}
+        cfg = {r: draw(_subset) for r in ("children", "grandchildren", "tags", "owner", "notes")}
     init = {
         "n_o": draw(st.integers(0, 1)),
         "n_p": draw(st.integers(1, 2)),
@@ -864,26 +935,29 @@ def _cases(draw):
         "links": [[draw(st.integers(0, 1)), draw(st.integers(0, 1))] for _ in range(draw(st.integers(0, 2)))],
     }
     init["parents"] = [draw(st.one_of(st.none(), st.integers(0, 1))) for _ in range(init["n_p"])]
+    init["notes"] = draw(st.lists(st.one_of(st.none(), st.integers(0, 1)), max_size=2))
     epochs = []
     for _ in range(draw(st.integers(1, 3))):
         ops = []
         for _ in range(draw(st.integers(2, 9))):
-            k = draw(st.sampled_from(["new", "new", "add", "add", "link", "link", "move", "move", "move", "move", "bounce", "bounce", "bounce", "unlink", "unlink", "delete", "expunge", "expire", "refresh", "newlink", "newlink"]))
+            k = draw(st.sampled_from(["new", "new", "add", "add", "link", "link", "move", "move", "move", "move", "bounce", "bounce", "bounce", "unlink", "unlink", "delete", "expunge", "expire", "refresh", "newlink", "newlink", "rmdel", "rmdel"]))
             if k == "new":
-                ops.append([k, draw(st.integers(0, 4))])
+                ops.append([k, draw(st.integers(0, 5))])
             elif k == "newlink":
                 # a fresh child / grandchild / tag / parent attached right away (pending objects are what the orphan rules are about)
-                kind, rel = draw(st.sampled_from([[2, 0], [2, 1], [3, 2], [3, 3], [4, 4], [1, 6], [1, 5], [2, 0]]))
+                kind, rel = draw(st.sampled_from([[2, 0], [2, 1], [3, 2], [3, 3], [4, 4], [1, 6], [1, 5], [2, 0], [5, 7], [5, 7]]))
                 ops.append(["new", kind])
                 ops.append(["linknew", rel, draw(_i)])
+            elif k == "rmdel":
+                ops.append([k, draw(_i), draw(_i)])
             elif k == "move":
                 ops.append([k, draw(st.integers(0, 3)), draw(_i), draw(_i), draw(st.integers(0, 1))])
             elif k == "bounce":
-                ops.append([k, draw(st.integers(0, 4)), draw(_i), draw(_i), draw(st.integers(0, 1)), draw(st.integers(0, 3))])
+                ops.append([k, draw(st.integers(0, 5)), draw(_i), draw(_i), draw(st.integers(0, 1)), draw(st.integers(0, 3))])
             elif k == "link":
-                ops.append([k, draw(st.integers(0, 6)), draw(_i), draw(_i)])
+                ops.append([k, draw(st.integers(0, 7)), draw(_i), draw(_i)])
             elif k == "unlink":
-                ops.append([k, draw(st.integers(0, 6)), draw(_i), draw(_i)])
+                ops.append([k, draw(st.integers(0, 7)), draw(_i), draw(_i)])
             else:
                 ops.append([k, draw(_i)])
         epochs.append(ops)
